@@ -26,12 +26,22 @@
 (*   FIX_SET_COUNT = FALSE : Set of an existing id runs addElement (counters drift) *)
 (*   FIX_MERGE_UP  = FALSE : removeElement merges the leaf's parent only            *)
 (*   FIX_NIL_HASH  = FALSE : compareResults treats two Nil hashes as "equal, skip"  *)
+(*   DEV_SAME_COUNT_EQUAL  : a plausible rewrite of the repaired test that is only   *)
+(*                           wrong when the two sides are tuned differently          *)
 (* Peers in Legacy always run the two as-is maintenance behaviours (a remote peer   *)
 (* that has not been upgraded); the requester of a diff is always "L".              *)
+(*                                                                                  *)
+(* Tuning parameters are PER INDEX and independent: every index carries its own     *)
+(* compare threshold th and its own divide factor DF^lg (lg from LGs; an index with *)
+(* lg = 2 cuts a range into DF^2 children at once, which for DF = 2 are exactly the *)
+(* grandchildren a DF = 2 index gets in two steps - the real genTupleRanges agrees, *)
+(* the harness checks it).  A diff uses the requester's parameters for subdividing  *)
+(* and for the threshold test, the remote answers from a tree built with its own.   *)
 EXTENDS Integers, Sequences, FiniteSets, TLC
 
-CONSTANTS DF,             \* divide factor >= 2
-          THs,            \* set of compare thresholds explored (each >= 1)
+CONSTANTS DF,             \* base divide factor >= 2 (digits of the modelled hash)
+          THs,            \* set of compare thresholds explored (each >= 1), chosen per index
+          LGs,            \* set of exponents: an index divides a range into DF^lg children
           D,              \* depth of the modelled hash
           Ids,            \* id universe
           IdPath,         \* [Ids -> [1..D -> 0..DF-1]], injective
@@ -40,18 +50,20 @@ CONSTANTS DF,             \* divide factor >= 2
           Legacy,         \* subset of Peers running the as-is maintenance
           MaxSet,         \* maximal number of elements in one multi-element Set call
           MaxCnt,         \* bound on the top counter (only matters when counters drift)
-          FIX_SET_COUNT, FIX_MERGE_UP, FIX_NIL_HASH
+          FIX_SET_COUNT, FIX_MERGE_UP, FIX_NIL_HASH,
+          DEV_SAME_COUNT_EQUAL   \* deviation (never in the code): "counts equal /\ hashes equal => skip"
 
 ASSUME DF >= 2 /\ D >= 1 /\ \A t \in THs : t >= 1
+ASSUME \A l \in LGs : l >= 1 /\ l <= D
 ASSUME \A i \in Ids : Len(IdPath[i]) = D /\ \A k \in 1..D : IdPath[i][k] \in 0..(DF - 1)
 ASSUME \A i, j \in Ids : i # j => IdPath[i] # IdPath[j]
 ASSUME Legacy \subseteq Peers
 
-VARIABLES idx,    \* [Peers -> index]: cont (id -> head | 0), mat (materialised ranges),
+VARIABLES idx     \* [Peers -> index]: cont (id -> head | 0), mat (materialised ranges),
                   \*                   div (divided ranges), cnt, hsh (per materialised range),
-                  \*                   ovf (left the modelled depth, legacy only)
-          th      \* compare threshold of this run (chosen in Init, never changes)
-vars == <<idx, th>>
+                  \*                   ovf (left the modelled depth, legacy only),
+                  \*                   th, lg (the index's own parameters, chosen in Init, constant)
+vars == <<idx>>
 
 Heads == 1..MaxHead
 FixSet(p)   == IF p \in Legacy THEN FALSE ELSE FIX_SET_COUNT
@@ -63,7 +75,13 @@ Paths       == UNION {[1..n -> Digits] : n \in 0..D}
 Pre(q, k)   == SubSeq(q, 1, k)
 Front(q)    == SubSeq(q, 1, Len(q) - 1)
 PrefixOf(p, q) == Len(p) <= Len(q) /\ SubSeq(q, 1, Len(p)) = p
-Children(p) == {Append(p, d) : d \in Digits}
+\* the DF^k children of range p for an index with exponent k, in the order of genTupleRanges
+RECURSIVE KidSeq(_, _), KidFold(_, _, _)
+KidSeq(p, k)     == IF k = 0 THEN <<p>> ELSE KidFold(p, k, 0)
+KidFold(p, k, d) == IF d = DF THEN <<>> ELSE KidSeq(Append(p, d), k - 1) \o KidFold(p, k, d + 1)
+CanDivide(p, k)  == Len(p) + k <= D
+KidTab == TLCEval([k \in LGs |-> TLCEval([p \in {q \in Paths : CanDivide(q, k)} |-> KidSeq(p, k)])])   \* constant table
+Kids(p, k) == {KidTab[k][p][j] : j \in 1..Len(KidTab[k][p])}
 \* TLCEval (here and below) only makes TLC evaluate a function / set constructor eagerly instead of
 \* re-evaluating its body on every application; it is the identity.
 Restrict(f, S) == TLCEval([x \in S |-> f[x]])
@@ -88,14 +106,13 @@ NodeHash(hs) == [k |-> "D", s |-> {}, c |-> SelectSeq(hs, LAMBDA h : h # Nil)]
 \* (new objects replace stale map entries); a child above the threshold is divided at once.
 RECURSIVE MakeBottom(_, _, _), MakeBottomKids(_, _, _, _)
 MakeBottom(t, c, p) ==
-    LET kids == Children(p)
+    LET kids == Kids(p, t.lg)
         nm   == t.mat \cup kids
-        t1   == [mat   |-> nm,
-                 div   |-> t.div \ kids,
-                 cnt   |-> TLCEval([q \in nm |-> IF q \in kids THEN N(c, q) ELSE t.cnt[q]]),
-                 hsh   |-> TLCEval([q \in nm |-> IF q \in kids THEN LeafHash(c, q) ELSE t.hsh[q]]),
-                 dirty |-> t.dirty, ovf |-> t.ovf]
-    IN  MakeBottomKids(t1, c, p, {q \in kids : N(c, q) > th /\ Len(q) < D})
+        t1   == [t EXCEPT !.mat = nm,
+                          !.div = @ \ kids,
+                          !.cnt = TLCEval([q \in nm |-> IF q \in kids THEN N(c, q) ELSE t.cnt[q]]),
+                          !.hsh = TLCEval([q \in nm |-> IF q \in kids THEN LeafHash(c, q) ELSE t.hsh[q]])]
+    IN  MakeBottomKids(t1, c, p, {q \in kids : N(c, q) > t.th /\ CanDivide(q, t.lg)})
 MakeBottomKids(t, c, p, S) ==
     IF S = {} THEN t
     ELSE LET q  == CHOOSE x \in S : TRUE
@@ -103,22 +120,23 @@ MakeBottomKids(t, c, p, S) ==
          IN  MakeBottomKids(MakeBottom(t1, c, q), c, p, S \ {q})
 
 \* the walk of addElement / removeElement: top, then getBottomRange while the range is divided
-LeafLen(t, path) == CHOOSE k \in 0..D : /\ Pre(path, k) \notin t.div
-                                        /\ \A j \in 0..(k - 1) : Pre(path, j) \in t.div
-OnWalk(path, k)  == {Pre(path, j) : j \in 0..k}
+Levels(t)        == {k \in 0..D : k % t.lg = 0}          \* depths at which this index has ranges
+LeafLen(t, path) == CHOOSE k \in Levels(t) : /\ Pre(path, k) \notin t.div
+                                             /\ \A j \in Levels(t) : j < k => Pre(path, j) \in t.div
+OnWalk(t, path, k) == {Pre(path, j) : j \in {i \in Levels(t) : i <= k}}
 
 \* addElement(elHash): c is the skiplist *after* sl.Set
 AddElement(t, c, path) ==
     LET k  == LeafLen(t, path)
         L  == Pre(path, k)
-        w  == OnWalk(path, k)
+        w  == OnWalk(t, path, k)
         t1 == [t EXCEPT !.cnt = TLCEval([q \in DOMAIN @ |-> IF q \in w THEN @[q] + 1 ELSE @[q]]),
                         !.dirty = @ \cup {L}]
-        t2 == IF t1.cnt[L] > th
-                THEN IF k < D THEN MakeBottom([t1 EXCEPT !.div = @ \cup {L}], c, L)
+        t2 == IF t1.cnt[L] > t.th
+                THEN IF CanDivide(L, t.lg) THEN MakeBottom([t1 EXCEPT !.div = @ \cup {L}], c, L)
                      ELSE [t1 EXCEPT !.ovf = TRUE]   \* the code would divide below the modelled depth
                 ELSE t1
-    IN  IF k > 0 THEN [t2 EXCEPT !.dirty = @ \ {Pre(path, k - 1)}] ELSE t2
+    IN  IF k > 0 THEN [t2 EXCEPT !.dirty = @ \ {Pre(path, k - t.lg)}] ELSE t2
 
 \* repaired Set of an existing id: no counter changes, the leaf holding the id is recomputed
 UpdateElement(t, path) ==
@@ -126,27 +144,27 @@ UpdateElement(t, path) ==
 
 \* the merge inside removeElement: the children of P leave the map, P becomes a leaf
 Merge(t, P) ==
-    LET kids == Children(P)
+    LET kids == Kids(P, t.lg)
         nm   == t.mat \ kids
-    IN  [mat |-> nm, div |-> (t.div \ kids) \ {P}, cnt |-> Restrict(t.cnt, nm),
-         hsh |-> Restrict(t.hsh, nm), dirty |-> t.dirty \ kids, ovf |-> t.ovf]
+    IN  [t EXCEPT !.mat = nm, !.div = (@ \ kids) \ {P}, !.cnt = Restrict(@, nm),
+                  !.hsh = Restrict(@, nm), !.dirty = @ \ kids]
 
 \* repaired removeElement: keep merging upwards while the enclosing range fits the threshold
 RECURSIVE MergeUp(_, _)
 MergeUp(t, r) ==
-    LET P == Front(r)
-    IN  IF P # <<>> /\ t.cnt[P] <= th THEN MergeUp(Merge(t, P), P)
+    LET P == Pre(r, Len(r) - t.lg)
+    IN  IF P # <<>> /\ t.cnt[P] <= t.th THEN MergeUp(Merge(t, P), P)
         ELSE [t EXCEPT !.dirty = @ \cup {r}]
 
 \* removeElement(elHash), after sl.Remove
 RemoveElement(t, path, fixMerge) ==
     LET k  == LeafLen(t, path)
         L  == Pre(path, k)
-        w  == OnWalk(path, k)
+        w  == OnWalk(t, path, k)
         t1 == [t EXCEPT !.cnt = TLCEval([q \in DOMAIN @ |-> IF q \in w THEN @[q] - 1 ELSE @[q]])]
-        P  == Pre(path, k - 1)
+        P  == Pre(path, k - t.lg)
     IN  IF fixMerge THEN MergeUp(t1, L)
-        ELSE IF t1.cnt[P] <= th /\ P # <<>>
+        ELSE IF t1.cnt[P] <= t.th /\ P # <<>>
                THEN [Merge(t1, P) EXCEPT !.dirty = @ \cup {P}]
                ELSE [t1 EXCEPT !.dirty = @ \cup {L}]
 
@@ -156,15 +174,16 @@ RemoveElement(t, path, fixMerge) ==
 RECURSIVE NewHash(_, _, _, _)
 NewHash(t, c, clo, q) ==
     IF q \notin clo THEN t.hsh[q]
-    ELSE IF q \in t.div THEN NodeHash([d \in 1..DF |-> NewHash(t, c, clo, Append(q, d - 1))])
+    ELSE IF q \in t.div THEN NodeHash([j \in 1..Len(KidTab[t.lg][q]) |-> NewHash(t, c, clo, KidTab[t.lg][q][j])])
     ELSE LeafHash(c, q)
 Recalc(t, c) ==
     LET clo == TLCEval({q \in t.mat : \E x \in t.dirty : PrefixOf(q, x)})
-    IN  [cont |-> c, mat |-> t.mat, div |-> t.div, ovf |-> t.ovf,
+    IN  [cont |-> c, mat |-> t.mat, div |-> t.div, ovf |-> t.ovf, th |-> t.th, lg |-> t.lg,
          cnt  |-> TLCEval([q \in t.mat |-> IF q \in clo /\ q \notin t.div THEN N(c, q) ELSE t.cnt[q]]),
          hsh  |-> TLCEval([q \in t.mat |-> NewHash(t, c, clo, q)])]
 
-Tree(x) == [mat |-> x.mat, div |-> x.div, cnt |-> x.cnt, hsh |-> x.hsh, dirty |-> {}, ovf |-> x.ovf]
+Tree(x) == [mat |-> x.mat, div |-> x.div, cnt |-> x.cnt, hsh |-> x.hsh, dirty |-> {}, ovf |-> x.ovf,
+            th |-> x.th, lg |-> x.lg]
 
 \* diff.Set(elements...): per element sl.Remove, sl.Set, addElement; one recalculateHashes at the end
 RECURSIVE SetFold(_, _, _, _)
@@ -181,30 +200,33 @@ DoSet(x, es, fixSet) == LET r == SetFold(Tree(x), x.cont, es, fixSet) IN Recalc(
 DoRemove(x, i, fixMerge) ==
     LET c1 == [x.cont EXCEPT ![i] = 0] IN Recalc(RemoveElement(Tree(x), IdPath[i], fixMerge), c1)
 
-\* ldiff.New: top range divided, its DF children created, top recomputed
+\* ldiff.New(DF^l, t): top range divided, its children created, top recomputed
 EmptyCont == [i \in Ids |-> 0]
-NewIndex ==
-    LET t0 == [mat |-> {<<>>}, div |-> {<<>>}, cnt |-> (<<>> :> 0), hsh |-> (<<>> :> Nil), dirty |-> {}, ovf |-> FALSE]
+NewIndex(t, l) ==
+    LET t0 == [mat |-> {<<>>}, div |-> {<<>>}, cnt |-> (<<>> :> 0), hsh |-> (<<>> :> Nil), dirty |-> {}, ovf |-> FALSE,
+               th |-> t, lg |-> l]
         t1 == MakeBottom(t0, EmptyCont, <<>>)
     IN  Recalc([t1 EXCEPT !.dirty = {<<>>}], EmptyCont)
 
 (* ------------------------------ the index a fresh fill produces ------------------------------ *)
-\* declaratively: a range is divided iff it is the top or holds more than the threshold t
-FreshDivT(c, t) == {p \in Paths : Len(p) < D /\ (p = <<>> \/ N(c, p) > t)}
-FreshMatT(c, t) == {<<>>} \cup UNION {Children(p) : p \in FreshDivT(c, t)}
-RECURSIVE FreshHashT(_, _, _)
-FreshHashT(c, t, p) ==
-    IF Len(p) < D /\ (p = <<>> \/ N(c, p) > t)
-      THEN NodeHash([d \in 1..DF |-> FreshHashT(c, t, Append(p, d - 1))])
+\* declaratively: a range (at a depth the index has) is divided iff it is the top or holds more than
+\* the threshold t - for an index with threshold t and exponent l
+IsFreshDiv(c, t, l, p) == Len(p) % l = 0 /\ CanDivide(p, l) /\ (p = <<>> \/ N(c, p) > t)
+FreshDivT(c, t, l) == {p \in Paths : IsFreshDiv(c, t, l, p)}
+FreshMatT(c, t, l) == {<<>>} \cup UNION {Kids(p, l) : p \in FreshDivT(c, t, l)}
+RECURSIVE FreshHashT(_, _, _, _)
+FreshHashT(c, t, l, p) ==
+    IF IsFreshDiv(c, t, l, p)
+      THEN NodeHash([j \in 1..Len(KidTab[l][p]) |-> FreshHashT(c, t, l, KidTab[l][p][j])])
       ELSE LeafHash(c, p)
-FreshT(c, t) == LET m == FreshMatT(c, t)
-                IN  [cont |-> c, mat |-> m, div |-> FreshDivT(c, t), ovf |-> FALSE,
-                     cnt |-> TLCEval([q \in m |-> N(c, q)]), hsh |-> TLCEval([q \in m |-> FreshHashT(c, t, q)])]
-Fresh(c) == FreshT(c, th)
+FreshT(c, t, l) == LET m == FreshMatT(c, t, l)
+                   IN  [cont |-> c, mat |-> m, div |-> FreshDivT(c, t, l), ovf |-> FALSE, th |-> t, lg |-> l,
+                        cnt |-> TLCEval([q \in m |-> N(c, q)]), hsh |-> TLCEval([q \in m |-> FreshHashT(c, t, l, q)])]
+FreshLike(x, c) == FreshT(c, x.th, x.lg)      \* the fresh index with the parameters of x
 \* operationally: New, then one Set call with all elements (in some order)
 RECURSIVE SeqOfSet(_)
 SeqOfSet(S) == IF S = {} THEN <<>> ELSE LET e == CHOOSE x \in S : TRUE IN <<e>> \o SeqOfSet(S \ {e})
-FreshByFill(c) == DoSet(NewIndex, SeqOfSet(Els(c, <<>>)), TRUE)
+FreshByFill(x) == DoSet(NewIndex(x.th, x.lg), SeqOfSet(Els(x.cont, <<>>)), TRUE)
 
 (* ------------------------------ the diff ------------------------------ *)
 Req(p, el) == [p |-> p, el |-> el]
@@ -232,8 +254,9 @@ CmpEls(acc, my, ot) ==
 
 \* the first test of compareResults; as-is: bytes.Equal(myRes.Hash, otherRes.Hash)
 HashesSayEqual(my, ot) ==
-    /\ my.hash = ot.hash
-    /\ (FIX_NIL_HASH => (my.hash # Nil \/ (my.count = 0 /\ ot.count = 0)))
+    IF DEV_SAME_COUNT_EQUAL THEN my.count = ot.count /\ my.hash = ot.hash
+    ELSE /\ my.hash = ot.hash
+         /\ (FIX_NIL_HASH => (my.hash # Nil \/ (my.count = 0 /\ ot.count = 0)))
 
 \* compareResults for one requested range; st = [acc, prep, ok]
 CompareResults(xl, r, my, ot, st) ==
@@ -242,11 +265,11 @@ CompareResults(xl, r, my, ot, st) ==
       THEN IF Cardinality(my.els) = my.count
              THEN [st EXCEPT !.acc = CmpEls(@, my.els, ot.els)]
              ELSE [st EXCEPT !.acc = CmpEls(@, GetRange(xl, Req(r.p, TRUE)).els, ot.els)]
-    ELSE IF (ot.count <= th /\ Cardinality(ot.els) = 0) \/ Cardinality(my.els) = my.count
+    ELSE IF (ot.count <= xl.th /\ Cardinality(ot.els) = 0) \/ Cardinality(my.els) = my.count
       THEN [st EXCEPT !.prep = @ \cup {Req(r.p, TRUE)}]
-    ELSE IF Len(r.p) >= D
-      THEN [st EXCEPT !.ok = FALSE]            \* would leave the modelled depth, see DiffTerminates
-      ELSE [st EXCEPT !.prep = @ \cup {Req(q, FALSE) : q \in Children(r.p)}]
+    ELSE IF ~CanDivide(r.p, xl.lg)
+      THEN [st EXCEPT !.ok = FALSE]            \* would leave the modelled depth, see DiffGood
+      ELSE [st EXCEPT !.prep = @ \cup {Req(q, FALSE) : q \in Kids(r.p, xl.lg)}]   \* the requester's divide factor
 
 RECURSIVE RoundFold(_, _, _, _)
 RoundFold(xl, xr, S, st) ==
@@ -278,24 +301,20 @@ ExactAcc(acc, cl, cr) ==
 (* ------------------------------ actions ------------------------------ *)
 ElSeqs == UNION {[1..n -> Ids \X Heads] : n \in 2..MaxSet}
 
-Init == /\ th \in THs
-        /\ idx = [p \in Peers |-> NewIndex]
+\* every index gets its own threshold and divide factor
+Init == \E par \in [Peers -> THs \X LGs] : idx = [p \in Peers |-> NewIndex(par[p][1], par[p][2])]
 
 SetNew(p, i, h) ==
     /\ idx[p].cont[i] = 0
     /\ idx' = [idx EXCEPT ![p] = DoSet(@, <<<<i, h>>>>, FixSet(p))]
-    /\ UNCHANGED th
 SetUpdate(p, i, h) ==                       \* existing id, same or another head
     /\ idx[p].cont[i] # 0
     /\ idx' = [idx EXCEPT ![p] = DoSet(@, <<<<i, h>>>>, FixSet(p))]
-    /\ UNCHANGED th
 SetMany(p, es) ==                           \* several elements, duplicates of an id allowed
     /\ idx' = [idx EXCEPT ![p] = DoSet(@, es, FixSet(p))]
-    /\ UNCHANGED th
 RemoveId(p, i) ==
     /\ idx[p].cont[i] # 0
     /\ idx' = [idx EXCEPT ![p] = DoRemove(@, i, FixMerge(p))]
-    /\ UNCHANGED th
 RemoveMissing(p, i) ==                      \* ErrElementNotFound, nothing changes
     /\ idx[p].cont[i] = 0
     /\ UNCHANGED vars
@@ -313,18 +332,22 @@ CntBound == \A p \in Peers : idx[p].cnt[<<>>] <= MaxCnt
 WellFormed(x) ==
     /\ <<>> \in x.div /\ x.div \subseteq x.mat
     /\ DOMAIN x.cnt = x.mat /\ DOMAIN x.hsh = x.mat
-    /\ \A q \in x.div : Len(q) < D /\ Children(q) \subseteq x.mat
-TypeOK == /\ th \in THs
-          /\ \A p \in Peers : idx[p].cont \in [Ids -> 0..MaxHead] /\ WellFormed(idx[p])
+    /\ \A q \in x.div : CanDivide(q, x.lg) /\ Kids(q, x.lg) \subseteq x.mat
+TypeOK == \A p \in Peers : /\ idx[p].cont \in [Ids -> 0..MaxHead] /\ WellFormed(idx[p])
+                           /\ idx[p].th \in THs /\ idx[p].lg \in LGs
 
 \* C08: structure, counters and every range hash are those of a freshly filled index
-IsCanonical(x) == x = Fresh(x.cont)
+IsCanonical(x) == x = FreshLike(x, x.cont)
 Canonical == \A p \in Peers \ Legacy : IsCanonical(idx[p])
 \* "freshly filled in one call" is what the declarative definition says
-FreshIsFill == \A p \in Peers : FreshByFill(idx[p].cont) = Fresh(idx[p].cont)
-\* what C08 promises to the protocol: equal contents <=> equal advertised top hash
+FreshIsFill == \A p \in Peers : FreshByFill(idx[p]) = FreshLike(idx[p], idx[p].cont)
+\* what C08 promises to the protocol: equally tuned peers advertise equal top hashes iff their contents
+\* are equal; however two peers are tuned, equal top hashes mean equal contents
 SameContentsSameHash ==
-    \A p, q \in Peers \ Legacy : (idx[p].cont = idx[q].cont) <=> (idx[p].hsh[<<>>] = idx[q].hsh[<<>>])
+    \A p, q \in Peers \ Legacy :
+        /\ (idx[p].hsh[<<>>] = idx[q].hsh[<<>>]) => (idx[p].cont = idx[q].cont)
+        /\ (idx[p].th = idx[q].th /\ idx[p].lg = idx[q].lg /\ idx[p].cont = idx[q].cont)
+              => (idx[p].hsh[<<>>] = idx[q].hsh[<<>>])
 \* a repaired index never needs to divide a depth-D range (so the modelled depth is not a
 \* restriction for it); a legacy index whose drifting counters made it divide below depth D has
 \* left the model (ovf) and nothing is claimed about it from then on
